@@ -12,7 +12,7 @@ Import ListNotations.
 Open Scope string_scope.
 Open Scope N_scope.
 
-Record leaf := { lf_name : bytes; lf_desc : coldesc; lf_conv : option Z }.
+Record leaf := { lf_name : bytes; lf_desc : coldesc; lf_conv : option Z; lf_logical : option tv }.
 
 (* flat schema: root element with num_children = number of leaves, every leaf a primitive *)
 Definition leaf_of (s : selem) : rs leaf :=
@@ -31,8 +31,8 @@ Definition leaf_of (s : selem) : rs leaf :=
                     | _, _ => ROk 0
                     end) in
         match se_rep s with
-        | Some 0%Z => ROk {| lf_name := se_name s; lf_desc := {| cd_type := t; cd_tlen := tl; cd_maxdef := 0 |}; lf_conv := se_conv s |}
-        | Some 1%Z => ROk {| lf_name := se_name s; lf_desc := {| cd_type := t; cd_tlen := tl; cd_maxdef := 1 |}; lf_conv := se_conv s |}
+        | Some 0%Z => ROk {| lf_name := se_name s; lf_desc := {| cd_type := t; cd_tlen := tl; cd_maxdef := 0 |}; lf_conv := se_conv s; lf_logical := se_logical s |}
+        | Some 1%Z => ROk {| lf_name := se_name s; lf_desc := {| cd_type := t; cd_tlen := tl; cd_maxdef := 1 |}; lf_conv := se_conv s; lf_logical := se_logical s |}
         | Some 2%Z => RUns "repeated leaf (nested data)"
         | _ => RBad "schema: leaf without a valid repetition_type"
         end
@@ -204,7 +204,10 @@ Definition valid_rg (rc : rgroup * list chunk_res) : rs unit :=
 
 Definition valid_out (fo : file_out) : rs unit :=
   let! _ := map_rs valid_rg (fo_rgs fo) in
-  guard (fm_nrows (fo_meta fo) =? sumZ (map (fun rc => rg_nrows (fst rc)) (fo_rgs fo)))%Z
+  (* a file without row groups is a schema-only summary (_common_metadata): writers put the dataset's
+     total there or 0; nothing in the file can contradict it *)
+  guard (match fo_rgs fo with [] => true | _ =>
+           (fm_nrows (fo_meta fo) =? sumZ (map (fun rc => rg_nrows (fst rc)) (fo_rgs fo)))%Z end)
         "FileMetaData.num_rows differs from the sum over the row groups".
 
 Definition valid_file (strict : bool) (file : bytes) : rs unit :=
